@@ -118,30 +118,183 @@ def rule_counting(F, R):
                 "counting rule changed: " + detail)
     for f in bins:
         inst = "bin<%s>" % ",".join(f.raw.get("targs", []))
-        ub = [c for c in f.calls(lambda x: callee(x) in ("std::upper_bound", "std::lower_bound"))]
-        ok = len(ub) == 1 and callee(ub[0]) == "std::upper_bound" and len(args(ub[0])) == 3
-        R.check(ok, "R-C20-2", inst + " lookup rule", f.loc(), "bin() counts the thresholds <= query (upper_bound, default order) - the counting rule of update()",
-                "bin() lookup is `%s`: it disagrees with the counting rule for a query equal to a threshold" % (pp(ub[0])[:80] if ub else "?"))
-        # beyond the last threshold -> last bin
-        rets = [x for x in f.nodes() if x["k"] == "return"]
-        last = [x for x in rets if pp(x["c"][0]) in ("(bins() - 1)",)]
-        cond_ok = False
-        for b in f.cfg.blocks.values():
-            if b.cond is not None and pp(b.cond) in ("(it == end)", "(end == it)") and last:
-                w = f.cfg.where_enclosing(last[0])
-                cond_ok = w is not None and w[0] == b.succ[0]
-        R.check(cond_ok, "R-C20-2", inst + " beyond-last", f.loc(), "a query beyond the last threshold returns bins()-1",
-                "the beyond-the-last-threshold case no longer returns the last bin")
-        # thresholds searched over their full range
-        if ub:
-            a = [pp(x) for x in args(ub[0])[:2]]
-            full = True
-            for nm, want in zip(a, ("begin(m_thresholds)", "end(m_thresholds)")):
-                d = ref_decl(args(ub[0])[a.index(nm)])
-                var, _ = find_var(f, d) if d is not None else (None, None)
-                init = pp(var["c"][0]) if var is not None and var.get("c") else nm
-                full = full and init.replace("std::", "") == want
-            R.check(full, "R-C20-2", inst + " search range", f.loc(), "the search covers all thresholds", "bin() searches only part of the thresholds: %s" % a)
+        # the lookup is *executed* (concretely, on tiny threshold lists with duplicates) and compared with the counting rule of update():
+        # bin(v) = number of thresholds <= v
+        bad, unknown = None, None
+        for ths in ([], [1.0], [0.0, 2.0], [0.0, 0.0, 2.0], [0.0, 0.0, 0.0, 2.0], [1.0, 1.0], [-1.5, 0.5, 0.5, 3.0]):
+            qs = sorted({q for t in ths for q in (t - 0.5, t, t + 0.5)} | {-100.0, 0.0, 100.0})
+            for q in qs:
+                if "char" in inst or "int" in inst or "long" in inst or "short" in inst:
+                    if q != int(q):
+                        continue            # integral query types are exercised with integral values only (their narrowing is R-C20-1's business)
+                try:
+                    got = _bin_eval(f, ths, q)
+                except _BinUnknown as e:
+                    unknown = str(e)
+                    break
+                want = len([t for t in ths if t <= q])
+                if got != want:
+                    bad = "thresholds %s, query %s: bin() returns %s, the counting rule of update() puts the value in bin %d" % (ths, q, got, want)
+                    break
+            if bad or unknown:
+                break
+        if unknown and not bad:
+            R.incomplete("R-C20-2", inst + " lookup rule", f.loc(), "cannot execute bin(): %s" % unknown)
+        else:
+            R.check(bad is None, "R-C20-2", inst + " lookup rule", f.loc(), "bin(v) = number of thresholds <= v, also for duplicated thresholds, below the first and beyond the last one",
+                    "bin() disagrees with the counting rule: %s" % bad)
+
+
+class _BinUnknown(Exception):
+    pass
+
+
+def _bin_eval(f, ths, q):
+    """concrete execution of histogram_t::bin on the sorted threshold list `ths` and the query `q`"""
+    import bisect
+    env = {f.params[0]["d"]: q}
+
+    class Ret(Exception):
+        def __init__(self, v):
+            self.v = v
+
+    def ev(n):
+        n = skip(n)
+        k = n["k"]
+        if k == "paren":
+            return ev(n["c"][0])
+        if k == "cast":
+            v = ev(n["c"][0])
+            t = (n.get("t") or "")
+            if n.get("ck") == "FloatingToIntegral" or (isinstance(v, float) and any(x in t for x in ("int", "long", "short", "char")) and "*" not in t and "double" not in t and "float" not in t):
+                return int(v)
+            return v
+        if k in ("int", "float"):
+            return n["v"]
+        if k == "bool":
+            return bool(n["v"])
+        if k == "ref":
+            if n.get("d") in env:
+                return env[n["d"]]
+            raise _BinUnknown("variable " + str(n.get("n")))
+        if k == "mem" and n.get("n") == "m_thresholds":
+            return ("arr",)
+        if k == "un" and n.get("op") == "*":
+            p_ = ev(n["c"][0])
+            if isinstance(p_, tuple) and p_[0] == "ptr" and 0 <= p_[1] < len(ths):
+                return ths[p_[1]]
+            raise _BinUnknown("dereference outside the thresholds")
+        if k == "un" and n.get("op") == "!":
+            return not ev(n["c"][0])
+        if k == "un" and n.get("op") == "-":
+            return -ev(n["c"][0])
+        if k == "cond":
+            return ev(n["c"][1]) if ev(n["c"][0]) else ev(n["c"][2])
+        if k == "bin":
+            op = n["op"]
+            if op == "&&":
+                return bool(ev(n["c"][0])) and bool(ev(n["c"][1]))
+            if op == "||":
+                return bool(ev(n["c"][0])) or bool(ev(n["c"][1]))
+            a_, b_ = ev(n["c"][0]), ev(n["c"][1])
+            pa, pb = isinstance(a_, tuple), isinstance(b_, tuple)
+            if pa and pb:
+                if op in ("==", "!=", "<", "<="):
+                    return {"==": a_[1] == b_[1], "!=": a_[1] != b_[1], "<": a_[1] < b_[1], "<=": a_[1] <= b_[1]}[op]
+                if op == "-":
+                    return a_[1] - b_[1]
+            if pa and not pb and op in ("+", "-"):
+                return ("ptr", a_[1] + (b_ if op == "+" else -b_))
+            if pb and not pa and op == "+":
+                return ("ptr", b_[1] + a_)
+            if not pa and not pb and op in ("==", "!=", "<", "<=", "+", "-", "*", "/"):
+                return {"==": lambda: a_ == b_, "!=": lambda: a_ != b_, "<": lambda: a_ < b_, "<=": lambda: a_ <= b_, "+": lambda: a_ + b_, "-": lambda: a_ - b_,
+                        "*": lambda: a_ * b_, "/": lambda: a_ / b_}[op]()
+            raise _BinUnknown("operator " + op)
+        if k == "call":
+            cq = callee(n)
+            short_ = cq.split("::")[-1].split("<")[0]
+            ar = args(n)
+            if short_ in ("begin", "cbegin", "end", "cend", "data") and (len(ar) == 1 or (n.get("ck") == "mem" and not ar)):
+                o_ = ev(ar[0] if len(ar) == 1 else n["c"][0])
+                if o_ == ("arr",):
+                    return ("ptr", 0 if short_ in ("begin", "cbegin", "data") else len(ths))
+            if cq in ("std::upper_bound", "std::lower_bound") and len(ar) == 3:
+                b_, e_, v_ = ev(ar[0]), ev(ar[1]), ev(ar[2])
+                if isinstance(b_, tuple) and isinstance(e_, tuple):
+                    sl = ths[b_[1]:e_[1]]
+                    pos = bisect.bisect_right(sl, v_) if cq.endswith("upper_bound") else bisect.bisect_left(sl, v_)
+                    return ("ptr", b_[1] + pos)
+            if cq == "std::distance" and len(ar) == 2:
+                b_, e_ = ev(ar[0]), ev(ar[1])
+                return e_[1] - b_[1]
+            if cq in ("std::next", "std::prev") and len(ar) in (1, 2):
+                p_ = ev(ar[0])
+                k_ = ev(ar[1]) if len(ar) == 2 else 1
+                return ("ptr", p_[1] + (k_ if cq == "std::next" else -k_))
+            if short_ == "bins" and not ar:
+                return len(ths) + 1
+            if short_ == "size" and not ar and n.get("ck") == "mem" and ev(n["c"][0]) == ("arr",):
+                return len(ths)
+            raise _BinUnknown("call " + pp(n)[:50])
+        raise _BinUnknown(k + " " + pp(n)[:40])
+
+    def run(st):
+        if st is None:
+            return
+        k = st["k"]
+        if k == "block":
+            for c_ in st.get("c", ()):
+                run(c_)
+        elif k == "declstmt":
+            for v in st.get("c", ()):
+                if v is not None and v["k"] == "var" and v.get("c"):
+                    env[v["d"]] = ev(v["c"][0])
+        elif k == "if":
+            r = st["r"]
+            if "init" in r and st["c"][r.index("init")] is not None:
+                run(st["c"][r.index("init")])
+            if ev(st["c"][r.index("cond")]):
+                run(st["c"][r.index("then")])
+            elif "else" in r:
+                run(st["c"][r.index("else")])
+        elif k == "return":
+            raise Ret(ev(st["c"][0]))
+        elif k in ("for", "while"):
+            r = st["r"]
+            if "init" in r and st["c"][r.index("init")] is not None:
+                run(st["c"][r.index("init")])
+            guard = 0
+            while ev(st["c"][r.index("cond")]):
+                run(st["c"][r.index("body")])
+                if "inc" in r and st["c"][r.index("inc")] is not None:
+                    run(st["c"][r.index("inc")])
+                guard += 1
+                if guard > 64:
+                    raise _BinUnknown("loop does not terminate on the test instance")
+        elif k == "un" and st.get("op") in ("++", "--"):
+            d_ = ref_decl(st["c"][0])
+            v = env.get(d_)
+            delta = 1 if st["op"] == "++" else -1
+            env[d_] = ("ptr", v[1] + delta) if isinstance(v, tuple) else v + delta
+        elif assignment(st):
+            a_ = assignment(st)
+            d_ = ref_decl(a_[0])
+            v = ev(a_[1])
+            if a_[2] == "=":
+                env[d_] = v
+            else:
+                old = env[d_]
+                env[d_] = {"+=": lambda: (("ptr", old[1] + v) if isinstance(old, tuple) else old + v), "-=": lambda: (("ptr", old[1] - v) if isinstance(old, tuple) else old - v)}[a_[2]]()
+        else:
+            ev(st)
+    try:
+        run(f.body)
+    except Ret as r_:
+        return r_.v
+    except (KeyError, TypeError, IndexError) as e:
+        raise _BinUnknown(repr(e))
+    raise _BinUnknown("no return reached")
 
 
 def rule_percentile(F, R):
